@@ -27,6 +27,7 @@ type World struct {
 	lockProps   map[string][]string
 	Sweep       bool
 	qn          int
+	implCache   map[string][]implOf
 }
 
 func NewWorld(p *Program, cs *Contracts) *World {
@@ -193,6 +194,13 @@ func (w *World) callWrites(x *Exec, c *ssa.CallCommon, out map[string]bool) {
 			for _, m := range st.Modifies {
 				out[m] = true
 			}
+		} else {
+			// package-closed interface: the writes of every implementer
+			for _, im := range x.closedImpls(c) {
+				for k := range w.fnWrites(x, im.fn) {
+					out[k] = true
+				}
+			}
 		}
 		return
 	}
@@ -303,6 +311,13 @@ func (w *World) fnLocks(fn *ssa.Function, seen map[*ssa.Function]bool) map[strin
 				c = &i.Call
 			case *ssa.Defer:
 				c = &i.Call
+			}
+			if c != nil && c.IsInvoke() {
+				for _, im := range w.closedImpls(c) {
+					for k := range w.fnLocks(im.fn, seen) {
+						out[k] = true
+					}
+				}
 			}
 			if c == nil || c.IsInvoke() {
 				continue
